@@ -49,10 +49,13 @@ impl<'a> SpannedText<'a> {
 
     /// Calculate the line and column position, in characters.
     fn linecol(&self, pos: usize) -> (usize, usize) {
-        assert!(pos < self.text.len());
+        // Positions come from the code map, which may have been loaded from
+        // a module: never panic on one that is out of range or not on a
+        // character boundary, count what precedes it instead.
+        let before = self.text.get(..pos).unwrap_or(self.text);
         let mut line: usize = 1;
         let mut col: usize = 1;
-        for c in self.text[0..pos].chars() {
+        for c in before.chars() {
             if c == '\n' {
                 line = line.checked_add(1).expect("line + 1 must not wrap");
                 col = 1;
